@@ -407,7 +407,7 @@ def run(ctx):
         w0 = ctl_db.guarded(ctx, "corpus", lambda: Workload(ctx, env, flags, corpus_program(small=not thorough), "corpus"))
         if w0 is not None:
             workloads.append(w0)
-        for i in range(ctx.n(2, 4)):
+        for i in range(ctx.n(1, 4)):
             w = ctl_db.guarded(ctx, f"gen{i}", lambda i=i: Workload(ctx, env, flags, ctl_db.gen_program(rng, ns="gc22g"), f"gen{i}"))
             if w is not None:
                 workloads.append(w)
@@ -443,7 +443,7 @@ def run(ctx):
             nst = 0
             # (the second half of a run is the resolve phase: record_call_node with its nested record_value calls)
             lo = max(1, w.nstmts // 2)
-            want = (30 if thorough else 6) if wi == 0 else (10 if thorough else 1)
+            want = (30 if thorough else 4) if wi == 0 else (10 if thorough else 1)
             stmt_ks = (list(range(1, lo, 3)) + list(range(lo, w.nstmts + 1))) if (thorough and wi == 0) else \
                 sorted(rng.sample(range(lo, w.nstmts + 1), min(want, w.nstmts + 1 - lo)))
             for k in stmt_ks:
